@@ -113,7 +113,7 @@ func GenProgram(t *rapid.T) *Node {
 	// most programs start with a few declarations so that calls, constructors and methods have targets
 	for i, n := 0, g.n(0, 3, "nprelude"); i < n; i++ {
 		g.budget++
-		prog.C = append(prog.C, g.stmtOf(pick(g, []string{"funcdecl", "funcdecl", "ctor", "ctor", "method-obj", "accessor-obj", "args-fn"}, "prelude"), true)...)
+		prog.C = append(prog.C, g.stmtOf(pick(g, []string{"funcdecl", "funcdecl", "ctor", "ctor", "method-obj", "accessor-obj", "args-fn", "valueof-obj", "scope-shift"}, "prelude"), true)...)
 	}
 	prog.C = append(prog.C, g.stmts(g.n(2, 10, "ntop"), true)...)
 	// finish with an expression statement most of the time so that the completion value is interesting
@@ -159,7 +159,7 @@ func (g *G) stmt(declsAllowed bool) []*Node {
 		}
 	}
 	if declsAllowed && g.depth <= 3 {
-		choices = append(choices, "funcdecl", "funcdecl", "ctor", "method-obj", "accessor-obj", "args-fn")
+		choices = append(choices, "funcdecl", "funcdecl", "ctor", "method-obj", "accessor-obj", "args-fn", "valueof-obj", "scope-shift")
 	}
 	if g.sc.inFunc {
 		choices = append(choices, "return", "return")
@@ -381,6 +381,61 @@ func (g *G) stmtOf(c string, declsAllowed bool) []*Node {
 		}
 		g.declare(name, kObj)
 		return []*Node{N("var", NS("decl", name, o))}
+	case "valueof-obj":
+		// an object whose conversion to a primitive is observable; declared as a number-like value so
+		// that arithmetic, comparison, ++/-- and compound assignment pick it up
+		name := pick(g, varPool, "voname")
+		g.push(true)
+		vbody := Block(ExprStmt(Call(Id("log"), Str("valueOf"))), N("return", g.literal(kNum)))
+		tbody := Block(ExprStmt(Call(Id("log"), Str("toString"))), N("return", g.literal(kStr)))
+		g.pop()
+		o := N("obj", NS("prop", "valueOf", &Node{K: "func", C: []*Node{N("params"), vbody}}))
+		if g.coin(50, "hasts") {
+			o.C = append(o.C, NS("prop", "toString", &Node{K: "func", C: []*Node{N("params"), tbody}}))
+		}
+		g.declare(name, kNum)
+		out := []*Node{N("var", NS("decl", name, o))}
+		if g.coin(50, "voupd") {
+			// postfix/prefix update of a binding or member holding the object: ToNumber once, result vs stored value
+			holder := N("obj", NS("prop", "p", Id(name)))
+			hn := g.fresh("h")
+			g.declare(hn, kObj)
+			out = append(out, N("var", NS("decl", hn, holder)),
+				ExprStmt(Call(Id("log"), Str("upd"), &Node{K: pick(g, []string{"postupd", "preupd"}, "vk"), S: pick(g, []string{"++", "--"}, "vop"), C: []*Node{Dot(Id(hn), "p")}}, Dot(Id(hn), "p"))))
+		}
+		return out
+	case "scope-shift":
+		// the same identifier expression is evaluated several times while a nearer scope starts (or stops)
+		// binding the name: with-objects of different shapes, a with-object that gains the property,
+		// a direct eval that declares the name on a later call
+		name := pick(g, []string{"a", "b", "x"}, "ssname")
+		fn := pick(g, []string{"f", "g", "h"}, "ssfn")
+		g.declare(name, kAny)
+		pre := N("var", NS("decl", name, g.literal(kVal)))
+		switch g.n(0, 2, "ssform") {
+		case 0:
+			body := Block(N("with", Id("u"), Block(N("return", Id(name)))))
+			g.sc.fns = appendUnique(g.sc.fns, fn)
+			g.declare(fn, kFn)
+			return []*Node{pre, NS("funcdecl", fn, N("params", Id("u")), body),
+				ExprStmt(Call(Id("log"), Str("with-shift"), Call(Id(fn), N("obj")), Call(Id(fn), N("obj", NS("prop", name, g.literal(kVal)))), Call(Id(fn), N("obj"))))}
+		case 1:
+			i, wo := g.fresh("i"), g.fresh("wo")
+			g.declare(i, kNum)
+			g.declare(wo, kObj)
+			loop := N("for", N("var", NS("decl", i, Num(0))), Bin("<", Id(i), Num(3)), &Node{K: "postupd", S: "++", C: []*Node{Id(i)}},
+				Block(N("with", Id(wo), Block(ExprStmt(Call(Id("log"), Str("with-loop"), Id(name))))),
+					N("if", Bin("===", Id(i), Num(0)), Block(ExprStmt(&Node{K: "assign", S: "=", C: []*Node{Dot(Id(wo), name), g.literal(kVal)}})),
+						Block(ExprStmt(&Node{K: "un", S: "delete", C: []*Node{Dot(Id(wo), name)}})))))
+			return []*Node{pre, N("var", NS("decl", wo, N("obj"))), loop}
+		default:
+			sub := N("program", N("var", NS("decl", name, g.literal(kVal))))
+			body := Block(N("if", Id("u"), Block(ExprStmt(&Node{K: "eval", S: "direct", C: []*Node{sub}}))), N("return", Id(name)))
+			g.sc.fns = appendUnique(g.sc.fns, fn)
+			g.declare(fn, kFn)
+			return []*Node{pre, NS("funcdecl", fn, N("params", Id("u")), body),
+				ExprStmt(Call(Id("log"), Str("eval-shift"), Call(Id(fn), NS("bool", "false")), Call(Id(fn), NS("bool", "true")), Call(Id(fn), NS("bool", "false"))))}
+		}
 	case "args-fn":
 		// a function exercising the arguments object: aliasing, length, callee, extra/missing args
 		name := pick(g, []string{"f", "g", "h"}, "afname")
@@ -882,7 +937,12 @@ func (g *G) expr(k kind, d int) *Node {
 			cls := []string{"Error", "Object", "Function", "Array"}
 			cls = append(cls, g.sc.ctors...)
 			cls = append(cls, g.sc.fns...)
-			return Bin("instanceof", g.expr(kAny, d-1), Id(pick(g, cls, "iof")))
+			c := pick(g, cls, "iof")
+			if g.coin(30, "iofproto") {
+				// the prototype object itself is not an instance (the chain walk starts at its [[Prototype]])
+				return Bin("instanceof", Dot(Id(c), "prototype"), Id(c))
+			}
+			return Bin("instanceof", g.expr(kAny, d-1), Id(c))
 		case 8:
 			return &Node{K: "un", S: "delete", C: []*Node{g.lvalue()}}
 		default:
